@@ -4,11 +4,11 @@ from props.common import TRUSTED_BASE, ASSUMPTIONS as _A
 
 ID = 'C03'
 LEAN_MODULES = ['HidVerif.Props.C03']
-THEOREMS = ['HidVerif.Props.C03.' + n for n in ('never_commits_halt_iff', 'terminal_never_halts', 'halt_inversion_sound',
+THEOREMS = ['HidVerif.Props.C03.' + n for n in ('core_never_halts', 'core_overflow_never_halts', 'never_commits_halt_iff', 'terminal_never_halts', 'halt_inversion_sound',
                                                  'halt_inversion_total', 'goto_reach', 'vm_verdict_sound')] + \
            ['HidVerif.PSys.safe_not_halts', 'HidVerif.Sphinx.error_stub_reach', 'HidVerif.Sphinx.tnt_never_halts']
 TRUSTED = TRUSTED_BASE
-ASSUMPTIONS = _A + ['whole-program non-halting is validated (VM verdict never `halted`, which by vm_verdict_sound would exhibit '
+ASSUMPTIONS = _A + ['whole-program non-halting is PROVED for the core sub-language (core_never_halts, tied by the core correspondence suite); for the rest of the language it is validated (VM verdict never `halted`, which by vm_verdict_sound would exhibit '
                     'Halts init), not proved; the flavour/context rules that confine defeat calls are the subject of C06']
 RULE = ('every program of the sequential and time-travel generators in checked and unchecked builds (unchecked only where the '
         'checked run is fault-free), all word sizes; the VM outcome must never be a committed halt; non-trivial = run reached '
@@ -22,6 +22,7 @@ def run(ctx):
         for tt in (False, True):
             j, _ = suites.gen_jobs(ctx, n, tt=tt, w=w, prefix='w%d_%s' % (w, 't' if tt else 's'))
             jobs += j
+    jobs += suites.core_suite(ctx, ctx.budget(120, 2000), faults=0.15)
     tally, bad, res = suites.differential(ctx, jobs, None, kinds_bad=('HALT',), label='checked')
     # unchecked builds of the fault-free ones
     clean = [j for j in jobs if j[0] in res and 'vm' in res[j[0]] and res[j[0]]['vm'].outcome == 'terminal'
